@@ -2363,7 +2363,14 @@ def c06_worker(item):
     cfg.p_early_poison = 0.3
     cfg.kinds = ["modify"] * 6 + ["create"] * 2 + ["delete"] * 3 + ["rename"] * 3 + ["chmod", "truncate", "fill"]
     cfg.p_second_fail = 0.5
-    ws = wsgen.generate(seed, cfg)
+    # every fourth workspace: some patches spell names inside the tree as 'd//f' / 'd/./f' (one file, several spellings)
+    wsgen.INNER_SPELLING[0] = seed % 4 == 0
+    try:
+        ws = wsgen.generate(seed, cfg)
+    finally:
+        wsgen.INNER_SPELLING[0] = False
+    if seed % 4 == 0 and any(b"/./" in p.text for p in ws.patches):
+        res.count("shape:one-file-under-several-spellings")
     if r.random() < 0.25 and wsgen.add_newdir_reject(ws, r):
         res.count("shape:reject-in-a-directory-created-by-this-run")
     if r.random() < 0.1 and wsgen.add_nested_emptying(ws, r):
@@ -2769,7 +2776,13 @@ def c07_trace_worker(item):
     res = Res()
     cfg = wsgen.GenConfig(p_fail=0.3, max_patches=r.choice([4, 8, 12]), max_files=r.choice([2, 4, 6]), max_ops=3)
     cfg.kinds = ["modify"] * 4 + ["rename"] * 5 + ["create", "delete"]
-    ws = wsgen.generate(seed, cfg)
+    # every second workspace: some patches spell names inside the tree as 'd//f' / 'd/./f'; the monitor below judges by the file
+    # a name denotes (normalised path), not by its spelling
+    wsgen.INNER_SPELLING[0] = seed % 2 == 0
+    try:
+        ws = wsgen.generate(seed, cfg)
+    finally:
+        wsgen.INNER_SPELLING[0] = False
     nthreads = r.choice([2, 3, 4, 7, 16])
     args = base_args(threads=nthreads, backup=r.choice(["never", "always"]), verbosity="-q") + ["push", "-a"]
     with Scratch("c07") as scr:
@@ -2784,6 +2797,25 @@ def c07_trace_worker(item):
             res.viol({"class": "crash", "rc": str(rr.rc), "where": cli.crash_site(rr.err)}, rr.err.decode("utf-8", "replace")[-300:], orig, [binary] + args)
             return res
         summ = trace_summary(read_trace(tr))
+        spellings = 0
+        for what in ("loads", "saves"):
+            merged = {}
+            for name, ws_ in summ[what].items():
+                merged.setdefault(os.path.normpath(name), set()).update(ws_)
+            spellings += len(summ[what]) - len(merged)
+            summ[what] = merged
+        dist_n = {}
+        for name, th in summ["dist"].items():
+            dist_n.setdefault(os.path.normpath(name), set()).add(th)
+        spellings += len(summ["dist"]) - len(dist_n)
+        if spellings:
+            res.count("runs-with-one-file-under-several-spellings")
+        for name, ths in dist_n.items():
+            if len(ths) > 1:
+                res.viol({"class": "spellings-of-one-file-on-different-threads", "engine": "trace"}, "%s distributed to threads %s" % (name, sorted(ths)), orig, [binary] + args,
+                         extra={"workspace": ws.describe()})
+                return res
+        summ["dist"] = {k: min(v) for k, v in dist_n.items()}
         for name, ws_ in summ["loads"].items():
             if len(ws_) > 1:
                 res.viol({"class": "file-loaded-by-two-workers", "engine": "trace"}, "%s loaded by %s" % (name, sorted(ws_)), orig, [binary] + args, extra={"workspace": ws.describe()})
